@@ -88,7 +88,10 @@ ATOMS = {
     'AL': (U.AL, _inst(int, str)),
     'ALgi': (U.ALgi, lambda x, tower=False: x is None or (isinstance(x, list) and all(isinstance(i, int) for i in x)),
              lambda x, tower=False: x is None or (isinstance(x, list) and (not x or any(isinstance(i, int) for i in x)))),
-    'ALr': (U.ALr, lambda x, tower=False: _alr(x, all), lambda x, tower=False: _alr(x, _some)),
+    # a recursive alias is unrolled once by beartype (documented: one level of recursion); below that level the weakest
+    # reading only looks at the class of an item
+    'ALr': (U.ALr, lambda x, tower=False: _alr(x, all),
+            lambda x, tower=False: isinstance(x, int) or (isinstance(x, list) and (not x or any(isinstance(i, (int, list)) for i in x)))),
     'Type_': (typing.Type, _inst(type)),
     'Tuple_': (typing.Tuple, _inst(tuple)),
     'List_': (typing.List, _inst(list)),
